@@ -3,6 +3,7 @@ package main
 import (
 	"fmt"
 	"sort"
+	"strconv"
 	"strings"
 	"sync"
 	"sync/atomic"
@@ -37,7 +38,90 @@ func linksStr(m map[string][2][]int) string {
 	return strings.Join(parts, "|")
 }
 
+// c04BgBurst: background handlers that take a while, and events arriving faster than they are worked off. Every event
+// must reach every registered background handler exactly once (and the foreground handler too), whatever queueing the
+// library does between the event loop and the background handlers.
+func c04BgBurst(c *Ctx) {
+	for k := 0; k < c.Pick(3, 20); k++ {
+		n := c.R.Range(100, 400)
+		nbg := c.R.Range(1, 3)
+		desc := fmt.Sprintf("burst of %d numbered NOTICE events, %d background handlers that take 50-300us each, one foreground handler", n, nbg)
+		rp := map[string]interface{}{"op": "bg-burst", "events": n, "bg": nbg}
+		c.Journal("C04 " + desc)
+		var mu sync.Mutex
+		counts := make([]map[int]int, nbg+1)
+		for i := range counts {
+			counts[i] = map[int]int{}
+		}
+		total := 0
+		sess, err := newSession(nil, func(cn *client.Conn) {
+			rec := func(h int, slow bool) client.HandlerFunc {
+				return func(_ *client.Conn, l *client.Line) {
+					q, e := strconv.Atoi(l.Text())
+					if slow {
+						time.Sleep(time.Duration(50+(q*37+h*11)%250) * time.Microsecond)
+					}
+					mu.Lock()
+					if e != nil {
+						q = -1
+					}
+					counts[h][q]++
+					total++
+					mu.Unlock()
+				}
+			}
+			cn.HandleFunc("NOTICE", rec(0, false))
+			for h := 1; h <= nbg; h++ {
+				cn.HandleBG("NOTICE", rec(h, true))
+			}
+		})
+		if err != nil {
+			c.Res.Inconclusive++
+			continue
+		}
+		var sb strings.Builder
+		for q := 0; q < n; q++ {
+			sb.WriteString(fmt.Sprintf(":n!u@h NOTICE me :%d\r\n", q))
+			if q%50 == 49 { // several segments, so that bursts meet a busy worker
+				sess.srv.Send(sb.String())
+				sb.Reset()
+				time.Sleep(300 * time.Microsecond)
+			}
+		}
+		sess.srv.Send(sb.String())
+		sess.sync(20 * time.Second)
+		waitFor(func() bool { mu.Lock(); defer mu.Unlock(); return total >= n*(nbg+1) }, 5*time.Second)
+		time.Sleep(5 * time.Millisecond)
+		sess.close()
+		c.Res.Traces++
+		c.Res.Evaluations++
+		c.Dist("tag:bg-burst")
+		mu.Lock()
+		bad := ""
+		for h := 0; h <= nbg && bad == ""; h++ {
+			for q := 0; q < n; q++ {
+				if counts[h][q] != 1 {
+					kind := "background"
+					if h == 0 {
+						kind = "foreground"
+					}
+					bad = fmt.Sprintf("%s handler %d ran %d times for event %d", kind, h, counts[h][q], q)
+					break
+				}
+			}
+			if bad == "" && len(counts[h]) != n {
+				bad = fmt.Sprintf("handler %d was invoked for %d distinct events, %d were sent", h, len(counts[h]), n)
+			}
+		}
+		mu.Unlock()
+		if bad != "" {
+			c.SpecFail("spec", desc, "", bad, rp)
+		}
+	}
+}
+
 func c04(c *Ctx) {
+	c04BgBurst(c)
 	names := []string{"privmsg", "PRIVMSG", "PrivMsg", "join", "001", "x", "JOIN"}
 	// every letter in both cases, the characters around the letter ranges, names beyond any plausible short-name fast path
 	alpha := []string{"abcdefghijklm", "ABCDEFGHIJKLM", "nopqrstuvwxyz", "NOPQRSTUVWXYZ", "NoPqRsTuVwXyZ", "zap", "ZAP", "Zap", "quiz", "QUIZ", "@[`{", "a[z{", "A[Z{",
